@@ -82,7 +82,12 @@ def _new_block(draw, existing=None):
 @st.composite
 def _case(draw):
     n = draw(st.integers(1, 6))
-    kids = draw(st.lists(st.tuples(base_st, st.sampled_from(EXTS + ["/"])), min_size=n, max_size=n, unique_by=lambda t: t[0]))
+    from pgv import gen as _gen
+    import re as _re
+    # (names the shipped ignore pattern keeps out of listings - lib, bin, etc, dev - are C07's subject)
+    kids = draw(st.lists(st.tuples(base_st, st.sampled_from(EXTS + ["/"])).filter(
+        lambda t: not _re.search(_gen.SHIPPED_IGNORE, "/" + t[0] + (t[1] if t[1] != "/" else ""))),
+        min_size=n, max_size=n, unique_by=lambda t: t[0]))
     children = []
     for b, ext in kids:
         if ext == "/":
